@@ -85,7 +85,7 @@ def _is_ip_address(addr: str) -> bool:
 def _is_subnet_address(hostname: str) -> bool:
     try:
         addr, netmask = hostname.split("/")
-        return _is_ip_address(addr) and 0 <= int(netmask) < 32
+        return _is_ip_address(addr) and 0 <= int(netmask) <= 32
     except ValueError:
         return False
 
@@ -123,7 +123,8 @@ def _is_no_proxy_host(hostname: str, no_proxy: Optional[list]) -> bool:
         )
     for domain in [domain for domain in no_proxy if domain.startswith(".")]:
         endDomain = domain.lstrip('.')
-        if hostname.endswith(endDomain):
+        # the domain itself or a subdomain, on a label boundary
+        if hostname == endDomain or hostname.endswith("." + endDomain):
             return True
     return False
 
